@@ -34,6 +34,27 @@ static char *output_file;
 static StringArray input_paths;
 static StringArray tmpfiles;
 
+#ifdef CHIBICC_VERIF
+// 1: dump the tokens after preprocessing, 2: dump them as tokenized.
+static int verif_dump_tokens;
+
+// One token per line: kind, at_bol, has_space, line number, file number,
+// the spelling in hex and the names of the hide set.
+static FILE *open_file(char *path);
+
+static void verif_print_tokens(Token *tok) {
+  FILE *out = open_file(opt_o ? opt_o : "-");
+  for (; tok && tok->kind != TK_EOF; tok = tok->next) {
+    fprintf(out, "%d %d %d %d %d ", tok->kind, tok->at_bol, tok->has_space,
+            tok->line_no, tok->file ? tok->file->file_no : 0);
+    for (int i = 0; i < tok->len; i++)
+      fprintf(out, "%02x", (unsigned char)tok->loc[i]);
+    fprintf(out, "\n");
+  }
+  fclose(out);
+}
+#endif
+
 static void usage(int status) {
   fprintf(stderr, "chibicc [ -o <path> ] <file>\n");
   exit(status);
@@ -310,6 +331,19 @@ static void parse_args(int argc, char **argv) {
       continue;
     }
 
+#ifdef CHIBICC_VERIF
+    // Verification hooks: dump the token stream instead of compiling.
+    if (!strcmp(argv[i], "-verif-dump-tokens")) {
+      verif_dump_tokens = 1;
+      continue;
+    }
+
+    if (!strcmp(argv[i], "-verif-dump-raw-tokens")) {
+      verif_dump_tokens = 2;
+      continue;
+    }
+#endif
+
     if (!strcmp(argv[i], "-hashmap-test")) {
       hashmap_test();
       exit(0);
@@ -543,7 +577,22 @@ static void cc1(void) {
   // Tokenize and parse.
   Token *tok2 = must_tokenize_file(base_file);
   tok = append_tokens(tok, tok2);
+
+#ifdef CHIBICC_VERIF
+  if (verif_dump_tokens == 2) {
+    verif_print_tokens(tok);
+    return;
+  }
+#endif
+
   tok = preprocess(tok);
+
+#ifdef CHIBICC_VERIF
+  if (verif_dump_tokens == 1) {
+    verif_print_tokens(tok);
+    return;
+  }
+#endif
 
   // If -M or -MD are given, print file dependencies.
   if (opt_M || opt_MD) {
